@@ -140,7 +140,7 @@ fn concurrent(v: &Verdicts, runs: usize, seed0: u64) -> (u64, BTreeSet<u64>, BTr
                     watcher.call(&dbs, "watch k");
                     watcher.drain();
                     node.pump();
-                    let plans: Vec<Vec<String>> = (0..2)
+                    let mut plans: Vec<Vec<String>> = (0..2)
                         .map(|c| {
                             (0..rng.range(1, 3))
                                 .map(|j| match rng.below(3) {
@@ -150,6 +150,11 @@ fn concurrent(v: &Verdicts, runs: usize, seed0: u64) -> (u64, BTreeSet<u64>, BTr
                                 .collect()
                         })
                         .collect();
+                    // every other run a third session only reads: a value it saw stored is a
+                    // change of the stored value the watcher has to hear about
+                    if i % 2 == 1 {
+                        plans.push((0..rng.range(1, 4)).map(|_| "get-safe k".to_string()).collect());
+                    }
                     let bodies: Vec<_> = plans
                         .iter()
                         .map(|lines| {
@@ -179,7 +184,17 @@ fn concurrent(v: &Verdicts, runs: usize, seed0: u64) -> (u64, BTreeSet<u64>, BTr
                     }
                     let h = sched::schedule_hash(&out.events);
                     distinct.lock().unwrap().insert(h);
-                    let replies: Vec<String> = out.events.iter().filter_map(|e| if let Ev::Ret(_, _, r) = e { Some(r.clone()) } else { None }).collect();
+                    let replies: Vec<String> = out.events.iter().filter_map(|e| if let Ev::Ret(t, _, r) = e { if *t < 2 { Some(r.clone()) } else { None } } else { None }).collect();
+                    let seen_stored: Vec<(String, i32)> = out
+                        .events
+                        .iter()
+                        .filter_map(|e| if let Ev::Ret(2, _, r) = e { r.strip_prefix("Value ").map(|x| x.to_string()) } else { None })
+                        .filter_map(|x| {
+                            let mut p = x.rsplitn(2, " v");
+                            let ver: i32 = p.next()?.parse().ok()?;
+                            Some((p.next()?.to_string(), ver))
+                        })
+                        .collect();
                     let (fval, fver) = get_safe(&mut s0, &dbs, "k");
                     let notes: Vec<(i32, String)> = watcher
                         .drain()
@@ -208,7 +223,7 @@ fn concurrent(v: &Verdicts, runs: usize, seed0: u64) -> (u64, BTreeSet<u64>, BTr
                     if overlap {
                         nontrivial.lock().unwrap().insert(h);
                     }
-                    let written: BTreeSet<String> = plans.iter().flatten().map(|l| l.rsplit(' ').next().unwrap().to_string()).collect();
+                    let written: BTreeSet<String> = plans.iter().take(2).flatten().map(|l| l.rsplit(' ').next().unwrap().to_string()).collect();
                     let mut problem: Option<&str> = None;
                     if replies.iter().any(|r| r.starts_with("Error") || r.starts_with("VersionError") || r.starts_with("THREAD-PANIC")) {
                         problem = Some("versioned-write-refused");
@@ -216,6 +231,8 @@ fn concurrent(v: &Verdicts, runs: usize, seed0: u64) -> (u64, BTreeSet<u64>, BTr
                         problem = Some("final-value-was-never-written");
                     } else if notes.iter().any(|n| !written.contains(&n.1)) {
                         problem = Some("watcher-notified-of-a-value-nobody-wrote");
+                    } else if seen_stored.iter().any(|(val, ver)| written.contains(val) && !notes.iter().any(|n| n.1 == *val && n.0 == *ver)) {
+                        problem = Some("value-read-as-stored-was-never-notified");
                     } else if let Some(top) = notes.iter().max_by_key(|n| n.0) {
                         if top.1 != fval || top.0 != fver {
                             problem = Some("highest-versioned-notification-is-not-the-stored-value");
@@ -234,11 +251,11 @@ fn concurrent(v: &Verdicts, runs: usize, seed0: u64) -> (u64, BTreeSet<u64>, BTr
                     {
                         let mut sm = samples.lock().unwrap();
                         if sm.len() < 2 && overlap && problem.is_none() {
-                            sm.push(json!({"clients": plans, "replies": replies, "final": [fval, fver], "watcher_changed_version": notes}));
+                            sm.push(json!({"clients": plans, "replies": replies, "final": [fval, fver], "watcher_changed_version": notes, "reader_saw": seen_stored}));
                         }
                     }
                     if let Some(p) = problem {
-                        v.report(json!({"check": "newer", "mode": "two-concurrent-writers", "problem": p}), json!({"clients": plans, "replies": replies, "final": [fval, fver], "watcher_changed_version": notes,
+                        v.report(json!({"check": "newer", "mode": "two-concurrent-writers", "problem": p}), json!({"clients": plans, "replies": replies, "final": [fval, fver], "watcher_changed_version": notes, "reader_saw": seen_stored,
                             "events": out.events.iter().map(|e| format!("{:?}", e)).collect::<Vec<_>>()}));
                     }
                 }
@@ -322,6 +339,131 @@ fn replicated(v: &Verdicts, runs: usize, seed0: u64) -> (u64, u64) {
     (done.into_inner(), inconclusive.into_inner())
 }
 
+// ---------------------------------------------------------------- (d) free-running writers, reader and watcher
+/// Real threads, no scheduler: two sessions write one watched key of a newer database (plain and
+/// always-stale versioned writes, every value unique), a third session keeps reading it and a
+/// watcher keeps draining its notifications. Every (value, version) the reader saw stored is a
+/// change of the stored value, so the watcher has to have heard exactly that pair; the highest
+/// notified version carries the value stored at the end.
+fn free_running(v: &Verdicts, rounds: usize) -> (u64, u64, u64) {
+    use std::sync::atomic::{AtomicBool, AtomicUsize, Ordering};
+    let (mut writes, mut reads, mut heard) = (0u64, 0u64, 0u64);
+    for r in 0..rounds {
+        let (node, _adm) = mem_node(&[("fr", "newer")]);
+        let dbs = node.dbs.clone();
+        let per = 150usize;
+        let done = AtomicUsize::new(0);
+        let stop = AtomicBool::new(false);
+        let mut watcher = Session::new();
+        watcher.call(&dbs, "use-db fr tok");
+        watcher.call(&dbs, "watch k");
+        watcher.drain();
+        let (seen, notes, refused) = std::thread::scope(|sc| {
+            let hs: Vec<_> = (0..2)
+                .map(|c| {
+                    let (dbs, done) = (dbs.clone(), &done);
+                    sc.spawn(move || {
+                        let mut s = Session::new();
+                        s.call(&dbs, "use-db fr tok");
+                        let mut refused = vec![];
+                        for j in 0..per {
+                            let line = if (j + c) % 2 == 0 { format!("set k r{}c{}x{}", r, c, j) } else { format!("set-safe k {} r{}c{}x{}", j % 3, r, c, j) };
+                            let rep = s.call(&dbs, &line);
+                            if rep.is_error() {
+                                refused.push((line, rep.resp));
+                            }
+                            if j % 8 == 0 {
+                                std::thread::sleep(std::time::Duration::from_micros(30));
+                            }
+                        }
+                        done.fetch_add(1, Ordering::SeqCst);
+                        refused
+                    })
+                })
+                .collect();
+            let reader = {
+                let (dbs, done) = (dbs.clone(), &done);
+                sc.spawn(move || {
+                    let mut s = Session::new();
+                    s.call(&dbs, "use-db fr tok");
+                    let mut seen: BTreeSet<(i32, String)> = BTreeSet::new();
+                    let mut n = 0u64;
+                    while done.load(Ordering::SeqCst) < 2 {
+                        let (val, ver) = get_safe(&mut s, &dbs, "k");
+                        n += 1;
+                        // a key that does not exist yet reads as "<Empty>": only values a writer sent count
+                        if ver != i32::MIN && val.starts_with('r') {
+                            seen.insert((ver, val));
+                        }
+                    }
+                    (seen, n)
+                })
+            };
+            let listener = {
+                let stop = &stop;
+                let watcher = &mut watcher;
+                sc.spawn(move || {
+                    let mut notes: Vec<(i32, String)> = vec![];
+                    loop {
+                        let finished = stop.load(Ordering::SeqCst);
+                        let got = watcher.drain();
+                        for n in &got {
+                            if let Some(rest) = n.strip_prefix("changed-version k ") {
+                                let mut p = rest.trim_end().splitn(2, ' ');
+                                if let (Some(ver), Some(val)) = (p.next().and_then(|x| x.parse().ok()), p.next()) {
+                                    notes.push((ver, val.to_string()));
+                                }
+                            }
+                        }
+                        if finished && got.is_empty() {
+                            break;
+                        }
+                        if got.is_empty() {
+                            std::thread::yield_now();
+                        }
+                    }
+                    notes
+                })
+            };
+            let mut refused = vec![];
+            for h in hs {
+                refused.extend(h.join().unwrap_or_default());
+            }
+            let (seen, n) = reader.join().unwrap_or_default();
+            std::thread::sleep(std::time::Duration::from_millis(5));
+            stop.store(true, Ordering::SeqCst);
+            let notes = listener.join().unwrap_or_default();
+            reads += n;
+            (seen, notes, refused)
+        });
+        writes += 2 * per as u64;
+        heard += notes.len() as u64;
+        let mut s0 = Session::new();
+        s0.call(&dbs, "use-db fr tok");
+        let (fval, fver) = get_safe(&mut s0, &dbs, "k");
+        let noted: BTreeSet<(i32, String)> = notes.iter().cloned().collect();
+        let missing: Vec<&(i32, String)> = seen.iter().filter(|x| !noted.contains(*x)).collect();
+        let mut problem = None;
+        if !refused.is_empty() {
+            problem = Some("versioned-write-refused");
+        } else if !missing.is_empty() {
+            problem = Some("value-read-as-stored-was-never-notified");
+        } else if notes.iter().max_by_key(|n| n.0).map(|t| t.1 != fval || t.0 != fver).unwrap_or(true) {
+            problem = Some("highest-versioned-notification-is-not-the-stored-value");
+        } else if noted.len() != notes.len() {
+            problem = Some("two-stored-values-share-a-version");
+        }
+        if let Some(p) = problem {
+            v.report(
+                json!({"check": "newer", "mode": "free-running-writers-reader-watcher", "problem": p}),
+                json!({"round": r, "writes": 2 * per, "refused": refused.iter().take(5).collect::<Vec<_>>(), "read_as_stored_but_never_notified": missing.iter().take(10).collect::<Vec<_>>(),
+                       "distinct_pairs_read": seen.len(), "notifications": notes.len(), "final": [fval, fver]}),
+            );
+        }
+    }
+    (writes, reads, heard)
+}
+
 pub fn run(tier: &str) -> i32 {
     std::env::set_var("NUN_ELECTION_TIMEOUT", "30");
     quiet_panics();
@@ -334,9 +476,10 @@ pub fn run(tier: &str) -> i32 {
     FINE_POINTS.store(true, std::sync::atomic::Ordering::SeqCst);
     let (r_runs, r_inconclusive) = replicated(&v, if thorough { 3000 } else { 200 }, seed());
     FINE_POINTS.store(false, std::sync::atomic::Ordering::SeqCst);
-    ev.evaluations = seq_steps + c_runs + r_runs;
+    let (f_writes, f_reads, f_heard) = free_running(&v, if thorough { 400 } else { 40 });
+    ev.evaluations = seq_steps + c_runs + r_runs + f_writes;
     ev.distinct_nontrivial = c_nontrivial.len() as u64;
-    ev.rule = format!("(a) {} sequential writes in histories of 1-6 plain / versioned writes (version below, at, above current) on 2 keys of a newer database with a watcher; (b) {} token-passing schedules of two writers (1-3 writes each, plain and versioned 0-3) on one key with a watcher; (c) {} simulated-cluster runs where two sessions on the primary write one key sequentially or concurrently (yield point between creating a change and applying it) and 1-2 secondaries replay the primary's order; distinct_nontrivial = distinct schedules of (b) in which the two writers' operations overlap", seq_steps, c_runs, r_runs);
+    ev.rule = format!("(a) {} sequential writes in histories of 1-6 plain / versioned writes (version below, at, above current) on 2 keys of a newer database with a watcher; (b) {} token-passing schedules of two writers (1-3 writes each, plain and versioned 0-3) on one key with a watcher, every other one with a third session reading the key; (c) {} simulated-cluster runs where two sessions on the primary write one key sequentially or concurrently (yield point between creating a change and applying it) and 1-2 secondaries replay the primary's order; (d) free-running threads: {} writes by two sessions on one watched key while a third session read it {} times and the watcher heard {} notifications; distinct_nontrivial = distinct schedules of (b) in which the two writers' operations overlap", seq_steps, c_runs, r_runs, f_writes, f_reads, f_heard);
     ev.samples = c_samples;
     ev.set("sequential_version_classes", json!(seq_classes.iter().cloned().collect::<Vec<_>>()));
     ev.set("concurrent_distinct_schedules", json!(c_distinct.len()));
@@ -346,7 +489,7 @@ pub fn run(tier: &str) -> i32 {
     ev.violations = v.violation_count();
     ev.assumptions = vec![
         "through process_request a successful write always answers Ok; 'the reply says which value is now stored' is checked on the value the write path itself returns (db_ops::set_key_value)".into(),
-        "concurrent oracle: no refusal, final value was written by someone, the highest-versioned notification carries the stored value and version, no two notifications share a version, no notification for a value nobody wrote".into(),
+        "concurrent oracle: no refusal, final value was written by someone, the highest-versioned notification carries the stored value and version, no two notifications share a version, no notification for a value nobody wrote, every (value, version) a concurrent reader saw stored was notified with that version".into(),
     ];
     ev.write();
     cleanup_scratch();
@@ -355,6 +498,6 @@ pub fn run(tier: &str) -> i32 {
         println!("INCONCLUSIVE property=C19 reason=coverage floor not met ({} overlapping schedules, {} cluster runs)", c_nontrivial.len(), r_runs);
         return 2;
     }
-    println!("C19 {}: {} sequential writes, {} concurrent schedules ({} distinct, {} overlapping), {} replicated runs, {} violations", tier, seq_steps, c_runs, c_distinct.len(), c_nontrivial.len(), r_runs, v.violation_count());
+    println!("C19 {}: {} sequential writes, {} concurrent schedules ({} distinct, {} overlapping), {} replicated runs, {} free-running writes ({} reads, {} notifications heard), {} violations", tier, seq_steps, c_runs, c_distinct.len(), c_nontrivial.len(), r_runs, f_writes, f_reads, f_heard, v.violation_count());
     code
 }
